@@ -50,7 +50,10 @@ def str (s : Str) : Json := Json.str (String.ofList s)
 
 def sibOut (s : Sib) : Json :=
   Json.mkObj [("ident", match s.ident with | none => Json.null | some i => str i),
-              ("rename", Json.bool s.rename), ("assigned", Json.bool s.assigned)]
+              ("rename", Json.bool s.rename), ("assigned", Json.bool s.assigned),
+              ("token", match nameString s with
+                        | none => Json.null
+                        | some (b, t) => Json.arr #[Json.bool b, str t])]
 
 def getObs (j : Json) : Except String Spec.Obs := do
   let name ← getStr j "name"
